@@ -1595,6 +1595,12 @@ class t2data(object):
                     self._sections.append(keyword)
             else: more = False
         infile.close()
+        if self.extra_precision:
+            # extra precision sections are echoed if they also appear in the main file
+            # (not known yet when the extra precision file is read, at the SIMUL section):
+            self._echo_extra_precision = any([section in self._sections for
+                                              section in self.extra_precision])
+            self.update_read_write_functions()
         if meshfilename and (self.grid.num_blocks == 0):
             self.meshfilename = meshfilename
             if isinstance(meshfilename, str):
